@@ -60,6 +60,21 @@ def reload_ebb_calc(setting=None):
     return ebb_calc
 
 
+def by_keyword(fn, args):
+    """Call fn with its positional arguments passed by keyword, using the parameter names the
+    function under test currently has (read at run time: renaming a parameter is not a violation)."""
+    import inspect
+    orig = getattr(fn, "__verif_original__", fn)
+    try:
+        names = [p.name for p in inspect.signature(orig).parameters.values()
+                 if p.kind in (p.POSITIONAL_OR_KEYWORD, p.KEYWORD_ONLY)]
+    except (TypeError, ValueError):
+        return fn(*args)
+    if len(names) < len(args):
+        return fn(*args)
+    return fn(**dict(zip(names, args)))
+
+
 def fresh_clear(rng):
     """The word 'clear' as a string object created at run time (read from a file, a JSON field,
     .lower(), a str subclass ...): equal to the literal, but not the same interned object."""
